@@ -32,6 +32,12 @@ check("C14",
       "TLA+ spec (QRandom, QData) model-checked with TLC; replay of the TLC-emitted transition graph and of exact sampling cases into the implementation",
       "DESIGN.md §4 C14")
 
+check("C13",
+      "TLC model-checks QPool: cache tables with their build groups, global tolerance set/restore and one shared loss object / algorithm object re-configured per estimation; invariants: a re-used object equals a freshly configured one (NoResidue), cached extended weights belong to the weights held, pure operations / cache management / tolerance round trips change nothing else; a second instance configured the way the code originally ordered its configuration steps must violate NoResidue (vacuity witness). The transition graphs of the cache projection and of the estimation projection are replayed on one shared pool of real objects (all four types, physical and not, two systems): every call's result hash must equal the hash of the same call in a fresh world, every pool object / argument array / matrix basis / dataset must be byte-identical before and after every call, Delete must drop exactly one table, copies are written to and must not affect originals, matrix bases must refuse writes.",
+      "Trusted: result hashes (values rounded to 1e-10), byte-exact operand snapshots; the spec keeps the cache state exact by dropping tables that pure operations build on the way.",
+      "TLA+ spec (QPool) model-checked with TLC incl. as-coded vacuity witness; replay of TLC-emitted transition graphs (edge cover + seeded long walks) into the implementation against a fresh-world oracle",
+      "DESIGN.md §4 C13")
+
 ALL = ["C%02d" % i for i in range(1, 21)]
 
 def main():
